@@ -71,6 +71,26 @@ theorem step_nonUse {p : Pool K} (h : Inv p) (e : Ev K) (hne : e.isUseKs = false
   | userUse i x =>
     simp only [step]
     split <;> exact hsame _ rfl rfl rfl
+  | serveOoo i j r =>
+    simp only [step]
+    split
+    · exact hsame _ rfl rfl rfl
+    · rename_i w k hget
+      cases w with
+      | user => exact hsame _ rfl rfl rfl
+      | task tid =>
+        simp only
+        split
+        · exact hsame _ rfl rfl rfl
+        · rename_i t0 hft
+          obtain ⟨htm, htid⟩ := findTask_some hft
+          subst htid
+          split
+          · exact hsame _ rfl rfl rfl
+          · rename_i hcond
+            simp only [Bool.or_eq_true, not_or, Bool.not_eq_true, Option.isSome_eq_false_iff,
+              Option.isNone_iff_eq_none] at hcond
+            exact hmod _ t0 _ htm hcond.1 rfl rfl rfl (fun x => rfl)
   | taskFinish tid =>
     simp only [step]
     split
@@ -764,7 +784,7 @@ answered Ok (or with a broken-connection error) ⇒ every published connection t
 no user-issued `USE` was written after `L`'s own, has `L.ks` set at the server and no `USE` in flight. -/
 theorem published_of_inv {p : Pool K} (h : Inv p) (hov : p.overlap = false) (L : Task K)
     (hL : p.tasks.head? = some L) (hresp : L.resp = some .ok ∨ L.resp = some (.err .broken)) :
-    p.currentKs = some L.ks ∧ ∀ i ∈ p.conns, (p.net i).broken = false → (p.net i).userMark = false →
+    p.currentKs = some L.ks ∧ ∀ i ∈ p.conns, (p.net i).broken = false → (p.net i).unclaimed = false →
       (p.net i).serverKs = some L.ks ∧ (p.net i).queue = [] := by
   have hs := h.strong hov
   unfold Strong at hs
@@ -787,7 +807,7 @@ the fan-out's own) has `F.ks` set at the server, and nothing in flight. -/
 theorem cluster_published {c : Cluster K} (h : CInv c) (h2 : CInv2 c) (hs : CStrong c)
     (F : Fanout K) (hF : c.fanouts.head? = some F) (hr : F.resp = some .ok) :
     ∀ n ∈ c.known, ∀ i ∈ (c.pools n).conns, ((c.pools n).net i).broken = false →
-      ((c.pools n).net i).userMark = false →
+      ((c.pools n).net i).unclaimed = false →
       ((c.pools n).net i).serverKs = some F.ks ∧ ((c.pools n).net i).queue = [] := by
   intro n hn i hi hb hm
   unfold CStrong at hs
